@@ -905,3 +905,39 @@ def hostile_raw(r, idx):
     steps.append({"do": "app", "n": 2, "c": 0, "streams": [{"dir": 0, "size": 3000, "chunk": 1000, "finish": True}]})
     steps.append({"do": "run_until", "what": "apps", "max_us": 120000000})
     return {"cfg": cfg, "steps": steps, "tag": {"family": "hostile-raw", "victim": "s", "inject": {"k": "raw", "by": True}, "idx": idx, "hostile": True}}
+
+
+# ------------------------------------------------------------------------------------------------
+# C20: one script, two runs (variant tells the harness how the second run differs)
+
+def determinism_script(r, idx, fate_vec=None, variant=None):
+    fam = r.choice(["streamdata", "lifecycle", "progress", "flow", "recovery", "auth"])
+    if fam == "streamdata":
+        s = streamdata_script(r, idx, fate_vec=fate_vec)
+    elif fam == "lifecycle":
+        s = lifecycle_random(r, idx)
+    elif fam == "progress":
+        s = progress_script(r, idx, fate_vec=fate_vec)
+    elif fam == "flow":
+        s = flow_script(r, idx, fate_vec=fate_vec)
+    elif fam == "recovery":
+        s = recovery_script(r, idx, fate_vec=fate_vec)
+    else:
+        s = auth_script(r, idx, fate_vec=fate_vec)
+    variant = variant or r.choice(["same", "shift", "spurious"])
+    # the built-in CID generators draw from the thread RNG by design; determinism is a statement
+    # about the core given deterministic plug-ins
+    s["cfg"]["cid_gen"] = "det"
+    if variant == "spurious":
+        s["cfg"]["spurious"] = False        # the second run turns it on
+    steps = []
+    for st in s["steps"]:
+        steps.append(st)
+        if st["do"] in ("run", "run_until") and r.random() < 0.3:
+            steps.append({"do": "spurious", "n": r.choice([0, 1]), "c": 0})
+    steps.append({"do": "spurious", "n": 0, "c": 0})
+    steps.append({"do": "spurious", "n": 1, "c": 0})
+    s["steps"] = steps
+    s["tag"] = dict(s.get("tag", {}), family="determinism", base=fam, idx=idx, variant=variant,
+                    shift_s=r.choice([1, 1000, 86400 * 365, 4000000000]))
+    return s
